@@ -31,7 +31,8 @@ RULE = ("cover-labelled networks of 1-5 motifs (edge, path, triangle, 4-cycle, d
         "messages below 2^-1100 (exactly 0.0 as doubles) plus 0-2, or 10-14, or NOT PASSED (default 25), lowered until "
         "the exact iterate at phi = 1 has <= 12000-bit denominators; queries: phi = 1 always, plus 0, 1/8..7/8 and "
         "1 - 2^-k (k = 10, 20, 30, 52) where a cost estimate lets the exact model follow; phi passed as float / int / "
-        "np.float64 / np.int64, iterations as int / np.int64 / np.int32 (also in 40% of the ordinary cases). "
+        "np.float64 / np.int64, iterations as int / np.int64 / np.int32 (also in 40% of the ordinary cases; in the ordinary "
+        "cases a query whose exact evaluation is estimated above ~1.5 s is dropped, at least one is kept). "
         "Non-trivial = at least two motifs share a vertex, iterations >= 1 and some 0 < phi < 1 (or phi = 1 with >= 4 "
         "sweeps); distinct by (motifs, order, T, phis, number types)")
 EXHAUSTIVE = {"quick": False, "thorough": False}
